@@ -106,6 +106,35 @@ type c19EmbedVal struct {
 	c19Rec
 	X string `@Int`
 }
+// grammar fields reached through three and four levels of by-value embedding, several fields per level
+type c19Deep4 struct {
+	A string `@Ident`
+	B string `"=" @Int`
+	C string `";"?`
+}
+type c19Deep3 struct {
+	c19Deep4
+	D string `@String?`
+}
+type c19Deep2 struct {
+	c19Deep3
+	E []string `@Ident*`
+}
+type c19Deep1 struct {
+	c19Deep2
+	F string `"."`
+}
+type c19Deep4Bad struct {
+	A string `@Nope`
+	B string `"=" @Int`
+}
+type c19Deep3Bad struct{ c19Deep4Bad }
+type c19Deep2Bad struct{ c19Deep3Bad }
+type c19Deep1Bad struct {
+	c19Deep2Bad
+	F string `"."`
+}
+
 type c19LeftRec struct {
 	L *c19LeftRec `@@`
 	V string      `@Ident`
@@ -426,9 +455,9 @@ func checkC19(c *c19Case, r *vstat.Run) outcome {
 			r.JournalDone()
 		}
 		switch c.Static {
-		case "OnlyUnexported", "NoTags", "LeftRec":
-			expect, reason = tagMalformed, "no usable field / left recursion"
-		case "Unexported", "Nested", "Rec", "EmbedSelf", "EmbedPair", "EmbedVal":
+		case "OnlyUnexported", "NoTags", "LeftRec", "DeepBad":
+			expect, reason = tagMalformed, "no usable field / left recursion / unknown token type in a deeply embedded field"
+		case "Unexported", "Nested", "Rec", "EmbedSelf", "EmbedPair", "EmbedVal", "Deep":
 			expect = tagValid
 		}
 	default:
@@ -462,6 +491,15 @@ func checkC19(c *c19Case, r *vstat.Run) outcome {
 			}
 			if len(c.Fields) == 0 {
 				expect, reason = tagMalformed, "struct without grammar fields"
+			}
+			if expect == tagUndecided {
+				// whatever else is odd about the tags, a reference to an unknown token type cannot build
+				for _, tk := range all {
+					if tk.K == "ident" && !knownIdents[tk.T] {
+						expect, reason = tagMalformed, "unknown token type "+tk.T+" (next to: "+reason+")"
+						break
+					}
+				}
 			}
 		}
 		typ := c19Type(c)
@@ -547,6 +585,19 @@ func buildStatic(name string) (bool, error) {
 	case "EmbedVal":
 		p, err := participle.Build[c19EmbedVal]()
 		return p != nil, err
+	case "Deep":
+		p, err := participle.Build[c19Deep1]()
+		if err == nil {
+			// the fields must also be wired to the right tags
+			v, perr := p.ParseString("", `k = 1 ; "s" a b .`)
+			if perr != nil || v.A != "k" || v.B != "1" || v.D != `"s"` || len(v.E) != 2 {
+				return false, fmt.Errorf("deeply embedded grammar built but does not parse its own language: %v %+v", perr, v)
+			}
+		}
+		return p != nil, err
+	case "DeepBad":
+		p, err := participle.Build[c19Deep1Bad]()
+		return p != nil, err
 	case "string":
 		p, err := participle.Build[string]()
 		return p != nil, err
@@ -566,7 +617,7 @@ func buildStatic(name string) (bool, error) {
 	return false, fmt.Errorf("harness: unknown static type")
 }
 
-var c19Statics = []string{"Rec", "Unexported", "OnlyUnexported", "NoTags", "Nested", "WithIface", "MapField", "ChanField", "LeftRec", "string", "*Rec", "[]Rec", "map", "any", "EmbedSelf", "EmbedPair", "EmbedVal"}
+var c19Statics = []string{"Rec", "Unexported", "OnlyUnexported", "NoTags", "Nested", "WithIface", "MapField", "ChanField", "LeftRec", "string", "*Rec", "[]Rec", "map", "any", "EmbedSelf", "EmbedPair", "EmbedVal", "Deep", "DeepBad"}
 
 func describeC19(c *c19Case) string {
 	if c.Grammar != nil {
@@ -751,12 +802,37 @@ func propC19(t *rapid.T, r *vstat.Run) {
 			default: // no edit: a valid grammar in token form
 			}
 			c.Fields = splitFields(t, toks, rapid.IntRange(0, 3).Draw(t, "simple") > 0)
+		case k == 13 && rapid.Bool().Draw(t, "stray"):
+			// a stray token opens a later field and an unknown token type follows it: nothing after a complete
+			// expression may be dropped silently
+			c.Origin = "edit"
+			first := genValidToks(t, rapid.IntRange(0, 2).Draw(t, "vdepth"))
+			rest := genValidToks(t, rapid.IntRange(0, 2).Draw(t, "vdepth2"))
+			var idents []int
+			for i, tk := range rest {
+				if tk.K == "ident" {
+					idents = append(idents, i)
+				}
+			}
+			if len(idents) > 0 && rapid.Bool().Draw(t, "replaceident") {
+				rest[idents[rapid.IntRange(0, len(idents)-1).Draw(t, "which")]] = tagTok{"ident", "Unknown"}
+			} else {
+				rest = append(rest, tagTok{"@", "@"}, tagTok{"ident", "Unknown"})
+			}
+			stray := rapid.SampledFrom([]tagTok{{")", ")"}, {"]", "]"}, {"}", "}"}, {"?", "?"}, {"*", "*"}, {":", ":"}, {"junk", "1"}, {"=", "="}}).Draw(t, "straytok")
+			c.Fields = []c19Field{
+				{Type: "string", Toks: first, Form: rapid.IntRange(0, 1).Draw(t, "form")},
+				{Type: "string", Toks: append([]tagTok{stray}, rest...), Form: rapid.IntRange(0, 1).Draw(t, "form2")},
+			}
+			if rapid.Bool().Draw(t, "third") {
+				c.Fields = append(c.Fields, c19Field{Type: "[]string", Toks: []tagTok{{"@", "@"}, {"ident", "Ident"}}, Form: 0})
+			}
 		case k == 13:
 			c.Origin = "recsys"
 			c.Grammar, _ = gram.GenRecSystem(t)
 		case k <= 14:
 			c.Origin = "valid"
-			c.Grammar = gram.GenGrammar(t, gram.GenOpts{MaxProds: 4, MaxDepth: 3, TrapPercent: 10, PosStyles: true, MixedUnion: true, Profiles: true})
+			c.Grammar = gram.GenGrammar(t, gram.GenOpts{MaxProds: 4, MaxDepth: 3, TrapPercent: 10, PosStyles: true, MixedUnion: true, Profiles: true, DeepEmbeds: true})
 		case k <= 16:
 			c.Origin = "static"
 			c.Static = rapid.SampledFrom(c19Statics).Draw(t, "static")
